@@ -27,6 +27,7 @@ import ClipperVerif.Driver.SweepOrder
 import ClipperVerif.Driver.AelRings
 import ClipperVerif.Driver.C06Joins
 import ClipperVerif.Driver.TrimHorz
+import ClipperVerif.Driver.AelOpenRings
 namespace Clipper.Driver
 open Clipper.Proto
 
@@ -59,7 +60,8 @@ def handlers : List (String → Option (P String)) := [
   SweepOrder.handle,
   AelRings.handle,
   C06Joins.handle,
-  TrimHorz.handle
+  TrimHorz.handle,
+  AelOpenRings.handle
 ]
 
 def dispatch1 (cmd : String) : Option (P String) :=
